@@ -879,10 +879,13 @@ func sameBase(a, b ssa.Value) bool {
 }
 
 // c06exactNoChangeTests (R06.9): "nothing to do" is decided by identity, not by case-folded equality.
-func c06exactNoChangeTests(c *Ctx) {
+func c06exactNoChangeTests(c *Ctx) { c.exactNoChangeTests("R06.9") }
+
+// exactNoChangeTests is shared with C14 (R14.12): mailbox names other than INBOX are case-sensitive.
+func (c *Ctx) exactNoChangeTests(rule string) {
 	P, R := c.P, c.R
-	R.Explain("R06.9", "an update that differs from the current state only in letter case is still a change: in the functions below user.apply (internal/backend, closures included) no success return is control-dependent on the true outcome of strings.EqualFold applied to two non-constant values (stored value against update value).  Only INBOX is case-insensitive; comparing with a constant (\"inbox\") is fine, comparing data with data case-insensitively turns a case-only rename into a silently acknowledged no-op.")
-	apply := c.fn("R06.9", "internal/backend.(*user).apply")
+	R.Explain(rule, "an update that differs from the current state only in letter case is still a change: in the functions below user.apply (internal/backend, closures included) no success return is control-dependent on the true outcome of strings.EqualFold applied to two non-constant values (stored value against update value).  Only INBOX is case-insensitive; comparing with a constant (\"inbox\") is fine, comparing data with data case-insensitively turns a case-only rename into a silently acknowledged no-op.")
+	apply := c.fn(rule, "internal/backend.(*user).apply")
 	if apply == nil {
 		return
 	}
@@ -941,10 +944,10 @@ func c06exactNoChangeTests(c *Ctx) {
 			}
 		}
 		if bad != "" || f.Parent() == nil {
-			R.Check(bad == "", "R06.9", c.name(f)+"|no case-folded no-change test", P.Pos(f.Pos()), "no success return hangs on EqualFold(data, data)", "a success return is taken because two values are equal ignoring case ("+bad+"): an update that changes only the letter case is acknowledged but not applied")
+			R.Check(bad == "", rule, c.name(f)+"|no case-folded no-change test", P.Pos(f.Pos()), "no success return hangs on EqualFold(data, data)", "a success return is taken because two values are equal ignoring case ("+bad+"): an update that changes only the letter case is acknowledged but not applied")
 		}
 	}
-	R.Min("R06.9", "functions below user.apply", n, 15)
+	R.Min(rule, "functions below user.apply", n, 15)
 }
 
 // c06updatesConserved (R06.10): applying an update announces every part of the change.
